@@ -409,15 +409,28 @@ def _take_token_shapes(h, core):
         h.fail(f"anchor not found: {what}")
     body = re.sub(r"\s+", "", _block(h, core, core.find("{", m.end()), what)[0])
     k = m.group(1)
-    shape = (r"loop\{let(\w+)=self\.take_token_raw\(\)\.await\?;"
-             r"if(?:letToken\(Some\((\w+)\)\)=\1\.id&&" + k + r"\.contains\(&\2\)"
-             r"|matches!\(\1\.id,Token\(Some\((\w+)\)\)if" + k + r"\.contains\(&\3\)\))"
-             r"\{returnOk\(\1\);?\}"
-             r"ifletRec::Parsed\((\w+)\)=self\.substitute_alias\(\1,(true|false)\)\{returnOk\(\4\);?\}\}")
-    sm = re.fullmatch(shape, body)
+    t = r"(?P<t>\w+)"
+    kwtest = (r"(?:"
+              r"if(?:letToken\(Some\((?P<k1>\w+)\)\)=(?P=t)\.id&&" + k + r"\.contains\(&(?P=k1)\)"
+              r"|matches!\((?P=t)\.id,Token\(Some\((?P<k2>\w+)\)\)if" + k + r"\.contains\(&(?P=k2)\)\))"
+              r"\{returnOk\((?P=t)\);?\}"
+              r"|"
+              r"let(?P<b>\w+)(?::bool)?=match(?P=t)\.id\{"
+              r"(?:Token\(Some\((?P<k3>\w+)\)\)=>" + k + r"\.contains\(&(?P=k3)\),_=>false,?"
+              r"|_=>false,Token\(Some\((?P<k4>\w+)\)\)=>" + k + r"\.contains\(&(?P=k4)\),?)\};"
+              r"if(?P=b)\{returnOk\((?P=t)\);?\}"
+              r")")
+    subst = (r"(?:"
+             r"ifletRec::Parsed\((?P<x1>\w+)\)=self\.substitute_alias\((?P=t),(?P<f1>true|false)\)\{returnOk\((?P=x1)\);?\}"
+             r"|"
+             r"matchself\.substitute_alias\((?P=t),(?P<f2>true|false)\)\{"
+             r"(?:Rec::Parsed\((?P<x2>\w+)\)=>returnOk\((?P=x2)\),Rec::AliasSubstituted=>(?:continue|\(\)|\{\}),?"
+             r"|Rec::AliasSubstituted=>(?:continue|\(\)|\{\}),Rec::Parsed\((?P<x3>\w+)\)=>returnOk\((?P=x3)\),?)\};?"
+             r")")
+    sm = re.fullmatch(r"loop\{let" + t + r"=self\.take_token_raw\(\)\.await\?;" + kwtest + subst + r"\}", body)
     if not sm:
         h.fail(f"{what}: body shape not understood: {body!r}")
-    return sm.group(5)
+    return sm.group("f1") or sm.group("f2")
 
 
 KEYWORDS_CF = ("match", "loop", "while", "for", "if", "else")
@@ -648,6 +661,56 @@ def _pair_flows(h, flows):
     return pairs, sum(len(_flow_items(c)) for _, c in flows)
 
 
+def _eval_op_bool(h, expr, scrut, variant, op_text, what):
+    """value of a bool expression about the matched operator when the operator is `variant`"""
+    e = re.sub(r"\s+", "", expr)
+    if e in ("true", "false"):
+        return e == "true"
+    sv = re.escape(re.sub(r"\s+", "", scrut))
+    V = r"((?:\w+::)*\w+)"
+    for pat, neg in ((sv + "==" + V, False), (V + "==" + sv, False), (sv + "!=" + V, True), (V + "!=" + sv, True),
+                     (r"matches!\(" + sv + "," + V + r"\)", False), (r"!matches!\(" + sv + "," + V + r"\)", True)):
+        m = re.fullmatch(pat, e)
+        if m:
+            other = _variant(h, m.group(1), what)
+            if other not in op_text:
+                h.fail(f"{what}: {m.group(1)!r} is not an operator")
+            return (variant == other) != neg
+    h.fail(f"{what}: argument {expr!r} is neither a literal nor a comparison of the matched operator with an operator")
+
+
+def _here_doc_ops(h, rd_src, op_text):
+    what = "redir.rs here-document arm"
+    here = []
+    for mm in re.finditer(r"\bmatch\s+([^{};]+?)\s*(?=\{)", rd_src):
+        scrut = mm.group(1)
+        block = _block(h, rd_src, mm.end(), what)[0]
+        for pat, body in _arm_split(h, block, what):
+            calls = re.findall(r"here_doc_redirection_body\s*\(\s*([^()]*?)\s*\)", body)
+            if not calls:
+                continue
+            if len(calls) != 1:
+                h.fail(f"{what}: {len(calls)} calls of here_doc_redirection_body in one arm")
+            arg = calls[0]
+            if re.fullmatch(r"\w+", arg) and arg not in ("true", "false"):
+                lets = re.findall(r"\blet\s+(?:mut\s+)?" + re.escape(arg) + r"\s*(?::\s*bool\s*)?=\s*([^;]+);", body)
+                if len(lets) != 1:
+                    h.fail(f"{what}: argument `{arg}` has {len(lets)} `let` bindings in the arm")
+                arg = lets[0]
+            if " if " in " " + pat + " ":
+                h.fail(f"{what}: pattern with a guard: {pat!r}")
+            for p in _split_top(pat, "|"):
+                pv = _variant(h, p, what)
+                if pv not in op_text:
+                    h.fail(f"redir.rs: unknown operator {p!r} in a here-document arm")
+                here.append((op_text[pv], _eval_op_bool(h, arg, scrut, pv, op_text, what)))
+    if not here:
+        h.fail("redir.rs: no match arm calling here_doc_redirection_body(..) found")
+    if len({t for t, _ in here}) != len(here):
+        h.fail("redir.rs: an operator has two here-document arms")
+    return here
+
+
 def alias_tables(h):
     def load(rel):
         return _strip(h.read(rel))
@@ -744,19 +807,10 @@ def alias_tables(h):
             if v is not None:
                 redir.append(op_text[pv])
 
-    # --- here-document operators: arms `<Operator> => …here_doc_redirection_body(<bool>)…`
-    here = []
-    for m in re.finditer(r"((?:\w+::)*\w+(?:\s*\|\s*(?:\w+::)*\w+)*)\s*=>\s*[^,;]*?here_doc_redirection_body\s*\(\s*(\w+)\s*\)",
-                         rd_src):
-        if m.group(2) not in ("true", "false"):
-            h.fail(f"redir.rs: here_doc_redirection_body argument is not a literal: {m.group(2)!r}")
-        for p in m.group(1).split("|"):
-            pv = _variant(h, p, "redir.rs here-document arm")
-            if pv not in op_text:
-                h.fail(f"redir.rs: unknown operator {p!r} in a here-document arm")
-            here.append((op_text[pv], m.group(2) == "true"))
-    if not here:
-        h.fail("redir.rs: no arm calling here_doc_redirection_body(<bool>) found")
+    # --- here-document operators: the arms of a `match <operator>` whose body calls
+    # `here_doc_redirection_body(<arg>)`; <arg> is a literal, or an expression over the matched operator
+    # (`operator == LessLessDash`, `matches!(operator, LessLessDash)`, `operator != LessLess`), possibly through a `let`
+    here = _here_doc_ops(h, rd_src, op_text)
 
     # --- is_blank
     what = "is_blank (lex/core.rs)"
